@@ -35,8 +35,8 @@ def main():
     ap.add_argument("--official", action="store_true")
     a = ap.parse_args()
     head = sh(["git", "-C", "/repo", "rev-parse", "--short", "HEAD"]).stdout.strip()
-    wt = Path("/tmp/seedsweep-wt")
-    clean = Path("/tmp/seedsweep-clean")
+    wt = Path(f"/tmp/seedsweep-wt-{os.getpid()}")
+    clean = Path(f"/tmp/seedsweep-clean-{os.getpid()}")
     for p in (wt, clean):
         sh(["git", "-C", "/repo", "worktree", "remove", "--force", str(p)])
     sh(["git", "-C", "/repo", "worktree", "add", "-q", "--detach", str(clean), "HEAD"])
@@ -90,8 +90,11 @@ def main():
     finally:
         sh(["git", "-C", "/repo", "worktree", "remove", "--force", str(clean)])
         sh(["git", "-C", "/repo", "worktree", "remove", "--force", str(wt)])
-        # restore the generated Lean files for /repo itself
-        sh([PY, "harness/gen_all.py"], cwd=V)
+        # restore the generated Lean files for /repo itself (every check also regenerates its own)
+        sys.path.insert(0, str(V / "harness"))
+        import common
+        with common.lake_lock():
+            sh([PY, "harness/gen_all.py"], cwd=V)
     missed = [n for n, r in rows if r.get("exit") != 1]
     print(f"{len(rows)} seeded changes, {len(rows) - len(missed)} reported as VIOLATION; not reported: {missed}")
     return 0
